@@ -24,6 +24,20 @@ CLAIMS = {
              'correspondence (pull counts equal on every case). Partial: bound proved outside the known-finding region',
         technique='Lean 4 proof (invariant over access traces) + model/implementation correspondence',
         ref='DESIGN.md §5 C12'),
+    'C08': dict(
+        text='Lean 4 theorems about the interpreter model (Render.lean: namespace stack, lookups with auto-call, '
+             'expressions, every block tag, sub-template calls, dtml-return, exceptions, fault plans as part of the '
+             'environment), proved by mutual induction on the evaluation for ALL programs, namespaces and fault plans: '
+             'block_preserves_stack, render_preserves_stack, subtemplate_preserves_stack, lookup_preserves_stack, '
+             'toplevel_call_balanced, caller_continues. Correspondence: results, call traces and every namespace snapshot '
+             'of generated programs under fault injection at every invocation point (singly and in pairs); oracle: frame '
+             'identities and level after == before on the real TemplateDict',
+        note='Trusted: Lean kernel; hand-written interpreter model validated (not verified) against the real classes by '
+             'correspondence incl. in-flight namespace snapshots. dtml-tree push/pop sites are outside the model: covered '
+             'by the fault-injection oracle only (partial)',
+        technique='Lean 4 proof (mutual induction over the fuel-indexed interpreter) + model/implementation correspondence '
+                  'under fault injection',
+        ref='DESIGN.md §5 C08'),
     'C03': dict(
         text='Lean 4 theorems about the quoting model for ALL strings: escape_no_raw, unescape5_escape (round trip), '
              'escape_id_iff, fastpath_sound (stated over Gen.fastPathChars, the character list extracted from '
